@@ -93,7 +93,7 @@ def _wait(cond, bound=8.0):
     return cond()
 
 
-def adoption(ctx, context, services_before=0, services_after=0, churn=False, fixed_cycles=None):
+def adoption(ctx, context, services_before=0, services_after=0, churn=False, fixed_cycles=None, redecorated=False):
     w = rt.World(accept_delay=0.02)
     runner = w.runner
     log, adopt_results = [], []
@@ -123,7 +123,23 @@ def adoption(ctx, context, services_before=0, services_after=0, churn=False, fix
             class Svc:
                 async def run(self):
                     svc_log.append((sid, _context()))
-        s = Svc()
+        if sid.startswith("after") and redecorated:
+            # a subclass decorated again for another flavour runs under ITS flavour
+            other = FLAV[(FLAV.index(flavour) + 1) % 3]
+            if other == "threading":
+                @service(flavour=rt.FLAVOURS[other])
+                class Sub(Svc):
+                    def run(self):
+                        svc_log.append((sid, _context()))
+            else:
+                @service(flavour=rt.FLAVOURS[other])
+                class Sub(Svc):
+                    async def run(self):
+                        svc_log.append((sid, _context()))
+            s = Sub()
+            flavour = other
+        else:
+            s = Svc()
         made.append((sid, flavour, s))
         return s
 
@@ -141,6 +157,8 @@ def adoption(ctx, context, services_before=0, services_after=0, churn=False, fix
             make_service("before%d" % i, FLAV[i % 3])
         if context == "before":
             submit_all()
+        elif context == "foreign_loop":
+            pass  # submitted after start, from a coroutine of a private asyncio loop in an outside thread
         elif context in FLAV:
             if context == "threading":
                 def outer():
@@ -163,6 +181,13 @@ def adoption(ctx, context, services_before=0, services_after=0, churn=False, fix
         ctx.require(ok, "the runtime reports running", fatal=True)
         if context == "outside":
             submit_all()
+        elif context == "foreign_loop":
+            async def in_private_loop():
+                submit_all()
+
+            th = threading.Thread(target=lambda: asyncio.run(in_private_loop()), daemon=True)
+            th.start()
+            th.join(10)
         for i in range(services_after):
             make_service("after%d" % i, FLAV[(i + 1) % 3])
         expected_services = services_before + services_after
@@ -208,12 +233,26 @@ def adoption(ctx, context, services_before=0, services_after=0, churn=False, fix
     if churn:
         want += ["replacement%d" % i for i in range(services_after or 1)]
     ctx.require(names == sorted(want), "the run method of every live service is started exactly once")
+    flavour_of = {sid: f for sid, f, _ in made}
+    for sid, c in svc_log:
+        f = flavour_of.get(sid)
+        if f == "asyncio":
+            ctx.require(c["asyncio_task"] and not c["trio_task"], "an asyncio service runs as an asyncio task")
+        elif f == "trio":
+            ctx.require(c["trio_task"], "a trio service runs as a trio task")
+        elif f == "threading":
+            ctx.require(not c["asyncio_task"] and not c["trio_task"], "a thread service runs outside both event loops")
 
 
 def tasks(tier, seed):
     out = []
     wit = 3 if tier == "quick" else 1
     pops = [(0, 0, False), (1, 0, False), (0, 1, False), (2, 1, False), (1, 2, False), (1, 1, True), (0, 2, True)]
+    out.append(Task(MOD, "adoption", dict(context="foreign_loop", services_before=0, services_after=0, fixed_cycles=0 if tier == "quick" else None),
+                    model="Z", weight=10, shards=8, witness_every=wit))
+    out.append(Task(MOD, "adoption", dict(context="outside", services_before=1, services_after=2, redecorated=True,
+                                          fixed_cycles=1 if tier == "quick" else None),
+                    model="Z", weight=10, shards=8, witness_every=wit))
     for i, context in enumerate(("before", "outside") + FLAV):
         for j, (sb, sa, churn) in enumerate(pops):
             if tier == "quick" and (i + j) % 3 != 0 and not (context == "trio" and j == 0):
